@@ -25,6 +25,17 @@ typedef struct {
     unsigned short ref;
 } refed_t;
 
+#if defined(TAEDLAR_NEOLITH_VERIF) && defined(VERIF_UNION_AS_STRUCT)
+/* Verification hook: the bounded model checker build compiles every union as a struct (it cannot
+ * resolve pointer members of unions reliably), so the two places that read an svalue through a
+ * different member than the one written re-synchronise that member first.  Never defined in a
+ * normal build. */
+#define VERIF_SYNC_REFED(v) ((v)->u.refed = \
+    (v)->type == T_OBJECT ? (refed_t *)(v)->u.ob : (v)->type == T_MAPPING ? (refed_t *)(v)->u.map : \
+    (v)->type == T_FUNCTION ? (refed_t *)(v)->u.fp : (v)->type == T_BUFFER ? (refed_t *)(v)->u.buf : \
+    (refed_t *)(v)->u.arr)
+#endif
+
 union svalue_u {
     char *string;
     const char *const_string;
